@@ -168,7 +168,7 @@ def did_change_scenario(binary, doc, changes, probe=True):
         s.close()
 
 
-def workspace_scenario(binary, files, open_rel, probes, timeout=30.0):
+def workspace_scenario(binary, files, open_rel, probes, timeout=30.0, pre_open=()):
     """files: {relative path: text} written to a fresh directory tree BEFORE the server starts; didOpen(open_rel); then
     textDocument/definition at each probe (line, character) of that document.  returns [target relative path or None per probe]"""
     root = tempfile.mkdtemp(prefix='glas-verif-ws-', dir=dump.scratch('lsp'))
@@ -187,6 +187,9 @@ def workspace_scenario(binary, files, open_rel, probes, timeout=30.0):
         if 'result' not in (r or {}):
             raise RuntimeError('initialize failed: %r' % (r,))
         s.notify('initialized', {})
+        for rel in pre_open:
+            # documents opened BEFORE the probed one (the order in which package roots are discovered matters)
+            s.notify('textDocument/didOpen', {'textDocument': {'uri': 'file://%s/%s' % (root, rel), 'languageId': 'gleam', 'version': 1, 'text': files[rel]}})
         uri = 'file://%s/%s' % (root, open_rel)
         s.notify('textDocument/didOpen', {'textDocument': {'uri': uri, 'languageId': 'gleam', 'version': 1, 'text': files[open_rel]}})
         out = []
